@@ -1,6 +1,9 @@
 """C05 - rculfhash: invariants + resident-node-found theorems; correspondence of Lfht.v with src/rculfhash.c; multiset linearizability oracle."""
 from vlib import *
 import lfht_common as L
+import lfhtx_common as X
+XPROGS = ['A0A3A4/L0L3TL4/Z2Z1Z0', 'U0U3U6/Z3L6L3T/Z1L0T', 'A3A6L3X/Z2Z0/L6TL3', 'A0U2L0P7/L0NL0/L0XTL0X', 'A3A5L3X/U8L5NT/Z2A9Z1', 'U0R2R7/L0L0L0T/L0XTU1']
+XCONFS = [('2', '8', 'o'), ('4', '8', 'o'), ('1', '8', 'c'), ('2', '8', 'm'), ('8', '8', 'o')]
 PROGS = ['A0A1/A5A3/L0XL1XL5XL3X', 'A0L0X/A1L1X/L0L1L0', 'A0A1A5/L1XL0X/L0XL1X', 'A4A3/A0L4X/L3XL0X', 'A0A1/L0XL0/L0XA5']
 def run(ctx):
     ctx.cov['source_hash'] = source_hash(L.FILES)
@@ -9,6 +12,9 @@ def run(ctx):
     if impl:
         cases = L.gen(ctx, PROGS, 400 if ctx.quick() else 5000, 'C05')
         corr_schedules(ctx, 'Lfht.v vs src/rculfhash.c', impl, model, cases, L.canon_c, oracle=L.oracle, nontrivial=L.contended, tail='012345' * 200, scenario='scen_lfht')
-    return finish(ctx, trusted=L.TRUSTED, rule='corpus + parking sweeps (each thread frozen after k steps) + bursty schedules on colliding keys (hash 5 x4, 7, 4) in a 2-bucket table; '
+    ximpl = X.build(ctx)
+    if ximpl: X.run_cases(ctx, 'rculfhash all operations with concurrent resize', ximpl, X.gen(ctx, XPROGS, 300 if ctx.quick() else 4000, 'C05x', XCONFS))
+    return finish(ctx, trusted=L.TRUSTED + ['oracle-only scenario scen_lfhtx.c: add / add_unique / add_replace / replace / del / lookup / next_duplicate / traversal with explicit grow and shrink (abstract RCU flavor, quarantining allocator)'], rule='corpus + parking sweeps (each thread frozen after k steps) + bursty schedules on colliding keys (hash 5 x4, 7, 4) in a 2-bucket table; '
                   'non-trivial = a failed cmpxchg or a removal helped by another thread; distinct = distinct (program, canonical trace)')
-replay = L.replay
+def replay(ctx, rp):
+    return X.replay(ctx, rp) if (rp.get('failing_input') or {}).get('scenario') == 'scen_lfhtx' else L.replay(ctx, rp)
